@@ -8,8 +8,9 @@ import os, sys, json, time, argparse, importlib, traceback, multiprocessing as m
 
 VERIF = os.path.dirname(os.path.dirname(os.path.abspath(__file__)))
 sys.path.insert(0, VERIF)
-if "/repo" not in sys.path:
-    sys.path.insert(0, "/repo")
+REPO = os.environ.get("VK_REPO", "/repo")
+if REPO not in sys.path:
+    sys.path.insert(0, REPO)
 os.environ.setdefault("MPLBACKEND", "Agg")
 os.environ["KAWIN_VERIF"] = "1"
 
